@@ -18,6 +18,10 @@ from . import common as cm
 
 REQ = ["Exports.Scan", "Exports.StarReplace", "Exports.Wire"]
 
+ANCHORS = ["pyflyby._modules:ModuleHandle._member_from_node", "pyflyby._modules:ModuleHandle",
+           "pyflyby._imports2s:replace_star_imports",
+           "pyflyby._importclns:ImportSet._from_imports"]
+
 NAMES = ["a", "b", "_p", "K", "f", "sub", "x", "g", "h"]
 SUBS = ["sub", "x", "b"]
 
@@ -288,10 +292,30 @@ def gen_program(r, importable, failing, allow_bad=True):
         for _ in range(r.randint(1, 4)):
             lines.append(imp_line())
         lines.append(r.choice(["_z = 1", "print", "# comment", "_w = [1,\n 2]"]))
+    if allow_bad and failing:
+        for f in r.sample(failing, min(len(failing), r.choice([1, 2, 3]))):
+            idx = r.choice([k for k, l in enumerate(lines) if l.startswith(("from ", "import "))])
+            lines.insert(idx + r.choice([0, 1]), "from %s import *" % f)
     return "\n".join(lines) + "\n"
 
 
 BROKEN = {"syntax": "def (:\n", "runtime": "raise RuntimeError('boom')\n"}
+
+# a package __init__ that fails at import time: its submodules cannot be located
+PARENT_RAISES = {
+    "KeyError": "import os\nos.environ['VERIF_NO_SUCH_SETTING']\n",
+    "RuntimeError": "raise RuntimeError('unsupported platform')\n",
+    "ZeroDivisionError": "x = 1 / 0\n",
+    "TypeError": "x = None + 1\n",
+    "ImportError": "import verif_no_such_module_xyz\n",
+    "AttributeError": "import os\nos.verif_no_such_attr\n",
+    "NameError": "verif_undefined_name\n",
+    "IndexError": "x = [][0]\n",
+    "SyntaxError": "def (:\n",
+    "UserException": "class E(Exception): pass\nraise E('custom')\n",
+}
+UNINSPECTABLE = ["parent:" + k for k in PARENT_RAISES] + ["nonutf8", "nullbytes", "directory", "subdirectory",
+                                                             "pyconly", "syntax"]
 
 
 def gen_cases(ctx, n):
@@ -340,10 +364,40 @@ def gen_cases(ctx, n):
             stmts = [st("a = 1", ("a", "local")), st("b = 2", ("b", "local")), st("__all__: list = ['a']")]
             files[B + ".py"] = render(stmts)
             mods.append({"name": B, "is_init": False, "stmts": stmts, "all": "annotated", "path": B + ".py"})
+        # every case: one or two modules that cannot be inspected, in different ways
+        bfiles, dirs, pycs = {}, [], []
+        for j, kind in enumerate(r.sample(UNINSPECTABLE, r.choice([1, 1, 2]))):
+            U = "un%s%d" % (tag, j)
+            if kind.startswith("parent:"):
+                files[U + "/__init__.py"] = PARENT_RAISES[kind[7:]]
+                files[U + "/api.py"] = "a = [1]\n"
+                name = U + ".api"
+            elif kind == "nonutf8":
+                bfiles[U + ".py"] = list(b"a = 1\ns = '\xff\xfe'\n")
+                name = U
+            elif kind == "nullbytes":
+                bfiles[U + ".py"] = list(b"a = 1\n\x00\n")
+                name = U
+            elif kind == "directory":
+                dirs.append(U)
+                name = U
+            elif kind == "subdirectory":
+                files[U + "/__init__.py"] = ""
+                dirs.append(U + "/api")
+                name = U + ".api"
+            elif kind == "pyconly":
+                pycs.append(U + ".pyc")
+                name = U
+            else:
+                files[U + ".py"] = BROKEN["syntax"]
+                name = U
+            mods.append({"name": name, "is_init": False, "stmts": None, "all": "none", "path": None,
+                         "broken": "uninspectable:" + kind, "uninspectable": True})
+            failing.append(name)
         importable = [m["name"] for m in mods if not m.get("broken")]
         programs = [gen_program(r, [m for m in importable if m not in failing], failing, allow_bad=bool(j)) for j in range(2)]
         cases.append({"kind": "tree", "i": i, "stream": stream, "files": files, "mods": mods,
-                      "programs": programs, "failing": failing})
+                      "programs": programs, "failing": failing, "bfiles": bfiles, "dirs": dirs, "pycs": pycs})
     return cases
 
 
@@ -545,6 +599,18 @@ def impl_case(c):
             os.makedirs(os.path.dirname(p), exist_ok=True)
             with open(p, "w") as f:
                 f.write(src)
+        for path, data in c.get("bfiles", {}).items():
+            with open(os.path.join(root, path), "wb") as f:
+                f.write(bytes(data))
+        for d in c.get("dirs", []):
+            os.makedirs(os.path.join(root, d), exist_ok=True)
+        for pyc in c.get("pycs", []):
+            import py_compile
+            tmp_src = os.path.join(root, "_verif_tmp_src.py")
+            with open(tmp_src, "w") as f:
+                f.write("a = [1]\n")
+            py_compile.compile(tmp_src, cfile=os.path.join(root, pyc))
+            os.remove(tmp_src)
         sys.path.insert(0, root)
         import importlib
         importlib.invalidate_caches()
@@ -560,7 +626,7 @@ def impl_case(c):
             elif e is not None:
                 rec["wellformed"] = all(f == "%s.%s" % (name, a) for f, a in full)
             try:
-                summ = summarize(c["files"][m["path"]])
+                summ = None if m.get("uninspectable") else summarize(c["files"][m["path"]])
             except SyntaxError:
                 summ = None
             # a submodule whose parent package cannot be imported cannot be inspected
@@ -626,7 +692,7 @@ def impl_case(c):
         if root in sys.path:
             sys.path.remove(root)
         for k in set(sys.modules) - before_mods:
-            if k.split(".")[0][:2] in ("pk", "fl", "gg", "bk", "an", "no"):
+            if k.split(".")[0][:2] in ("pk", "fl", "gg", "bk", "an", "no", "un"):
                 del sys.modules[k]
         shutil.rmtree(root, ignore_errors=True)
 
@@ -768,6 +834,10 @@ def oracle_case(ctx, c, im):
                 must_stay = n.level > 0 or e == "EXC" or e is None
                 if must_stay and (n.level, n.module) not in stars_after:
                     ctx.violation("star_kept_on_failure", {"case": c, "program": pi}, "star import of %r disappeared" % mname)
+                elif must_stay and ("from %s%s import *" % ("." * n.level, n.module or "")) not in [" ".join(l.split()) for l in po["out"].split("\n")]:
+                    ctx.violation("star_kept_on_failure", {"case": c, "program": pi}, "star import of %r is not kept verbatim" % mname)
+                if must_stay and n.level == 0:
+                    ctx.bump("oracle:kept_star:" + str((bymod.get(mname) or {}).get("broken", "nonexistent" if mname in c["failing"] else "nothing exported")))
                 if not must_stay and (n.level, n.module) in stars_after:
                     ctx.violation("star_replaced", {"case": c, "program": pi}, "star import of %r was not replaced" % mname)
         if pr is None:
@@ -875,7 +945,7 @@ def compare(ctx, cases, impl, index, model):
 
 
 def run(ctx):
-    n = 500 if ctx.quick else 8000
+    n = 400 if ctx.quick else 8000
     ctx.coverage["rule"] = (
         "one case = a generated tree on disk (package with 0-3 submodules and optionally an inner package, a flat module, "
         "a foreign module; with/without __all__, __all__ +=, non-literal __all__, private names, re-exports from "
@@ -892,6 +962,8 @@ def run(ctx):
         "a name that the real star import binds but the property's first sentence excludes (foreign imports, submodules, conditional bindings) is not demanded of the replacement",
     ]
     ctx.notes["trusted_base"] = ["CPython's ast / ast.literal_eval / import system as oracles for module summaries and for real star-import behaviour"]
+    cm.check_anchors(ctx, ANCHORS)
+    n *= getattr(ctx, "scale", 1)
     cases = cm.load_corpus("C19") + gen_cases(ctx, n)
     impl = cm.run_impl("c19", "impl_case", cases, timeout_case=90)
     exprs, index = model_exprs(cases, impl)
